@@ -7,7 +7,13 @@ props = [json.loads(l) for l in open(os.path.join(HERE, "properties.jsonl"))]
 LEVEL = {
  "C05": ("Structural necessary conditions of TTL safety decided on every path of the cache code: the only public lookup filters TTL 0, the reported TTL is the floor of saturating (expiry - fresh now), expiry = now + ttl, TTL-0 records never reach Cache::insert, upsert replaces an equal value, unchecked getters have no production caller. Behaviour along timed histories is declined.", "3/C05"),
 }
+LEVEL.update({
+ "C18": ("The ProtocolMode -> record-type order table, the link between the iterated type, the question asked and the family filter of get_ip, the two destinations handed to query_nameserver (resolved ip + configured port; configured forwarder) and the plumbing of those values from the CLI to the sockets are decided as dataflow facts over every path. Nothing about routing below the socket API is claimed.", "3/C18"),
+ "C19": ("The lock discipline that makes reload atomic is decided on every path: single write site, dominated by a successful load, one whole-value store through the guard, no await while the write guard is live, one read guard (or an owned snapshot) spanning resolve(), loader failure flag set on every error arm and never cleared. Timing of signals against in-flight queries is reduced to this discipline.", "3/C19"),
+})
 TECH = {
+ "C18": "custom MIR dataflow rules: arm-table extraction, ORIGIN of call arguments across await points, who-calls/who-constructs",
+ "C19": "custom MIR rules: who-calls on the lock API, guard dominance, guard-liveness vs yield points (typestate over the CFG), must-pass-through on error arms",
  "C05": "custom MIR dataflow/dominance rules (rustc_private driver): who-calls, guard dominance (CUT-REACH), ORIGIN expression shape",
 }
 NA = {
